@@ -567,7 +567,9 @@ class RoiSubsetStateNd(SubsetState):
         for att in self._atts:
             raw_comps.append(data[att, view])
         res_shape = raw_comps[0].shape
-        if not self.roi.defined():
+        # Note that if there are no values there is nothing to pass to the ROI
+        # once the pretransform (if any) has been applied in chunks below.
+        if not self.roi.defined() or raw_comps[0].size == 0:
             return np.zeros(raw_comps[0].shape, dtype=bool)
 
         if raw_comps[0].ndim == data.ndim and all([att in data.pixel_component_ids for att in self._atts]):
